@@ -112,6 +112,7 @@ type monitors struct {
 	nPublished int
 	failures   []string
 	tampered   bool // object storage was tampered with: C02/C03/C04 speak about untampered histories
+	leafCache  map[string][]*sunlight.LogEntry // decoded published trees (data tiles are immutable)
 	checks     map[string]int
 }
 
@@ -330,10 +331,18 @@ func (m *monitors) ack(w *world, e *ctlog.PendingLogEntry, idx, ts int64) {
 		m.fail("C02 acknowledged index %d not covered by the published checkpoint of size %d", idx, t.size)
 		return
 	}
-	leaves, why := m.readLeaves(w, t.size)
-	if why != "" {
-		m.fail("C02 published tree unreadable at acknowledgement: %s", why)
-		return
+	if m.leafCache == nil {
+		m.leafCache = map[string][]*sunlight.LogEntry{}
+	}
+	leaves, cached := m.leafCache[t.String()]
+	if !cached {
+		var why string
+		leaves, why = m.readLeaves(w, t.size)
+		if why != "" {
+			m.fail("C02 published tree unreadable at acknowledgement: %s", why)
+			return
+		}
+		m.leafCache = map[string][]*sunlight.LogEntry{t.String(): leaves}
 	}
 	l := leaves[idx]
 	if string(l.Certificate) != string(e.Certificate) || l.IsPrecert != e.IsPrecert || l.IssuerKeyHash != e.IssuerKeyHash ||
